@@ -232,6 +232,8 @@ def toml_of(src):
         lines.append("no_such_option = 1")
     if src["defect"] == "bad_value":
         lines.append('tab_width = "wide"')
+    if src["defect"] == "out_of_range":
+        lines.append(["tab_width = 258", "continuation_indents = 300", "tab_width = 256", "continuation_indents = 65537"][len(lines) % 4 if lines else (src.get("wrap_column", 0) + src.get("use_tabs", 0)) % 4])
     return "\n".join(lines) + "\n"
 
 
@@ -244,6 +246,8 @@ def override_args(src):
         a += ["-C", "no_such_option=1"]
     if src["defect"] == "bad_value":
         a += ["-C", "tab_width=wide"]
+    if src["defect"] == "out_of_range":
+        a += ["-C", "tab_width=258"]
     return a
 
 
@@ -259,7 +263,9 @@ def run_config_scenario(idx, sc):
             os.makedirs(d)
             dirs.append(d)
             src = sc["tree"][str(lvl)]
-            if src["defect"] != "absent":
+            if src["defect"] == "is_dir":
+                os.makedirs(os.path.join(d, "pasfmt.toml"))
+            elif src["defect"] != "absent":
                 with open(os.path.join(d, "pasfmt.toml"), "w") as fh:
                     fh.write(toml_of(src))
         cwd = dirs[-1]
